@@ -2,6 +2,7 @@ package main
 
 import (
 	"context"
+	"encoding/hex"
 	"errors"
 	"io"
 	"io/fs"
@@ -253,6 +254,9 @@ func stagePaths(w *gal.Writer, r *gal.Rand) {
 	// ---- key files ---------------------------------------------------------------
 	keyTails := []string{"/keys/k.rsa.pub", "/a/b/..", "/..", "/", "", "/a/", "/a/.", "/%2e%2e", "/a%2F..%2F..%2Fx", "/k?x=/../../y", "/k#/../../z", "/a/../../../../k.pub",
 		"/..%2f..%2fetc%2fpasswd", "/k.rsa.pub/", "/...", "/a b", "//", "/a//b", "/../../../../../k.pub", "/../../../../../../../../c18-key-escape"}
+	for _, seg := range keySegments {
+		keyTails = append(keyTails, "/keys/"+seg)
+	}
 	for i := 0; i < scale(40, 400); i++ {
 		hp := hostilePath(r)
 		if strings.ContainsAny(hp, "\x00 ") {
@@ -277,6 +281,31 @@ func stagePaths(w *gal.Writer, r *gal.Rand) {
 		_, err := apk.VerifParseRepositoryIndex(context.Background(), "https://h.example/repo/x86_64/APKINDEX.tar.gz", map[string][]byte{k: nil}, "x86_64", []byte("not a gzip stream"))
 		rejected := err != nil && strings.Contains(err.Error(), "invalid keyname")
 		addCase(w, "PKeyName", "key", map[string]any{"name": k, "err": errStr(err)}, false, gal.Str(k), gal.Bool(rejected))
+	}
+
+	// ---- cachedPackage: the member named by a datahash ------------------------------
+	hexes := []string{"", "0", "00", "0g", "zz", "abcdef", "ABCDEF", "aBcDeF0123456789", "00ff ", " 00ff", "00\x00", "0x00", "+0", "-0", "00/..", "../00", "..", ".", "/",
+		"e3b0c44298fc1c149afbf4c8996fb92427ae41e4649b934ca495991b7852b855", "E3B0C44298FC1C149AFBF4C8996FB92427AE41E4649B934CA495991B7852B85", "\xc3\xa9", "\xef\xbc\x90\xef\xbc\x90", "00\n"}
+	for i := 0; i < scale(40, 400); i++ {
+		n := r.Intn(9)
+		var sb strings.Builder
+		for j := 0; j < n; j++ {
+			sb.WriteString(gal.Pick(r, []string{"0", "9", "a", "f", "A", "F", "g", "G", "/", ".", "..", "@", "`", ":", "\x00", "\xff"}))
+		}
+		hexes = append(hexes, sb.String())
+	}
+	for i := 0; i < scale(20, 200); i++ {
+		hexes = append(hexes, hostilePath(r), climbing(r))
+	}
+	for _, h := range hexes {
+		_, err := hex.DecodeString(h)
+		addCase(w, "PHexOk", "cache-member", map[string]any{"s": h, "err": errStr(err)}, h == "", gal.Str(h), gal.Bool(err == nil))
+		for _, dir := range []string{"/t/cache/repo/x86_64/p-1.0-r0", "/", "/t/cache/../c", "rel/cache"} {
+			// cachedPackage: filepath.Join(cacheDir, datahash+".dat.tar.gz") and strings.TrimSuffix(.., ".gz")
+			dat := filepath.Join(dir, h+".dat.tar.gz")
+			addCase(w, "PCacheMember", "cache-member", map[string]any{"cache_dir": dir, "datahash": h, "dat": dat}, false,
+				gal.Str(dir), gal.Str(h), gal.Str(dat), gal.Str(strings.TrimSuffix(dat, ".gz")))
+		}
 	}
 
 	// ---- the in-memory trees ------------------------------------------------------
